@@ -204,7 +204,10 @@ Fixpoint group_syms (pid : N) (i : N) (gs : list (bytes * option ty)) (frame : l
           match name with
           | [] => group_syms pid (i + 1) r frame1
           | _ => match sym_find name frame1 with
-                 | Some _ => None
+                 | Some _ =>
+                     (* symbol.InsertAlias shadows its result variable: an alias that
+                        already exists is never reported, the first one stays *)
+                     group_syms pid (i + 1) r frame1
                  | None => group_syms pid (i + 1) r ((name, pid, i, t) :: frame1)
                  end
           end
